@@ -261,3 +261,51 @@ Definition saveLog (pname : option str) (pid : N) (ths : list thread) : str :=
   seek_overwrite (log_body (log_objs pname pid ths)).
 Definition saveLog_old (pname : option str) (pid : N) (ths : list thread) : str :=
   seek_overwrite_old (log_body (log_objs pname pid ths)).
+
+(* ------------------------------------------- the recorder's map  thread id -> event list
+   TraceRecorder::threadTrace (std::unordered_map<std::thread::id, shared_ptr<ThreadEventList>>)
+   as an association list.  Thread ids are numbers; the system may hand the id of a finished
+   thread to a later one, which then finds and continues the existing list. *)
+Record rentry := mkRe { re_id : N; re_name : option str; re_events : tlist }.
+Definition reg := list rentry.
+
+Inductive rop :=
+| RAttach (id : N)               (* a thread's first tracing call: getThreadTraceList(get_id())   *)
+| RName (id : N) (nm : str)      (* setThreadName(nm)                                              *)
+| RRec (id : N) (e : tev).       (* beginEvent / endEvent / setMarker / setCounter                 *)
+
+Fixpoint reg_find (r : reg) (id : N) : option rentry :=
+  match r with
+  | [] => None
+  | en :: r' => if re_id en =? id then Some en else reg_find r' id
+  end.
+
+(* the entry of id (the first one) replaced by f of it *)
+Fixpoint reg_upd (r : reg) (id : N) (f : rentry -> rentry) : reg :=
+  match r with
+  | [] => []
+  | en :: r' => if re_id en =? id then f en :: r' else en :: reg_upd r' id f
+  end.
+
+(* getThreadTraceList: auto fnd = threadTrace.find(id); if (fnd == end) threadTrace[id] = make_shared<...>() *)
+Definition reg_attach (r : reg) (id : N) : reg :=
+  match reg_find r id with
+  | Some _ => r
+  | None => r ++ [mkRe id None []]
+  end.
+
+Definition reg_step (r : reg) (o : rop) : reg :=
+  match o with
+  | RAttach id => reg_attach r id
+  | RName id nm => reg_upd (reg_attach r id) id (fun en => mkRe (re_id en) (Some nm) (re_events en))
+  | RRec id e => reg_upd (reg_attach r id) id (fun en => mkRe (re_id en) (re_name en) (record (re_events en) e))
+  end.
+
+Definition reg_run (ops : list rop) : reg := fold_left reg_step ops [].
+
+Definition reg_get (r : reg) (id : N) : tlist :=
+  match reg_find r id with Some en => re_events en | None => [] end.
+
+(* the threads saveLog iterates over; idtext = what `fout << tid` prints for an unnamed thread (opaque) *)
+Definition reg_threads (idtext : N -> str) (r : reg) : list thread :=
+  map (fun en => mkThread (match re_name en with Some n => n | None => idtext (re_id en) end) (re_events en)) r.
